@@ -61,6 +61,7 @@ func runKVCase[K comparable](c *core.Ctx, kind string, d *Dom[K], keyOf func(int
 	a := newKVByKind(c, kind, d)
 	m := NewKVMon(c, a, d)
 	setup(m)
+	c.SetGaps((c.Index/8)%2 == 1)
 	drv := &kvDriver[K]{c: c, m: m, keyOf: keyOf}
 	if a.GetKey != nil {
 		nv := c.R.Range(4, 8)
